@@ -58,6 +58,43 @@ type sigCase struct {
 	otherKeySign func(effMsg []byte) ([]byte, error)
 
 	accept, reject, skipped int
+
+	// One signature buffer and one message buffer per case: every candidate is copied into them and
+	// handed to Verify as a sub-slice, so the same backing array (same pointer, often the same length)
+	// carries different candidates one after the other.  A verifier that remembered a decision by the
+	// identity of its arguments instead of their content would disagree with the oracle.
+	sigBuf, msgBuf []byte
+	bufReuse       int
+}
+
+// viewBufSize holds every candidate of this package (RSA-4096 signature doubled plus prefix; messages
+// of 1 KiB plus mutation suffix), so the arrays are allocated once per case.
+const viewBufSize = 2304
+
+// view copies b to the start of the case's persistent buffer and returns that region (nil stays nil,
+// the empty candidate becomes the empty region of the same array).
+func view(buf *[]byte, b []byte) []byte {
+	if b == nil {
+		return nil
+	}
+	if cap(*buf) < len(b) {
+		n := viewBufSize
+		for n < len(b) {
+			n *= 2
+		}
+		*buf = make([]byte, n)
+	}
+	v := (*buf)[:len(b)]
+	copy(v, b)
+	return v
+}
+
+// views places one (signature, message) candidate pair into the case's two buffers.
+func (c *sigCase) views(sig, msg []byte) (s, m []byte) {
+	if c.sigBuf != nil && cap(c.sigBuf) >= len(sig) && cap(c.msgBuf) >= len(msg) {
+		c.bufReuse++
+	}
+	return view(&c.sigBuf, sig), view(&c.msgBuf, msg)
 }
 
 func (c *sigCase) String() string {
@@ -97,7 +134,8 @@ func (c *sigCase) try(t *rapid.T, kind string, sig, msg []byte) {
 		return
 	}
 	want := c.refFull(sig, msg)
-	err := c.verifier.Verify(bytes.Clone(sig), bytes.Clone(msg))
+	vs, vm := c.views(sig, msg)
+	err := c.verifier.Verify(vs, vm)
 	if (err == nil) != want {
 		t.Fatalf("%v\n candidate kind=%s\n sig=%x\n msg=%x\n Tink Verify err=%v but independent strict verifier accepts=%v", c, kind, sig, msg, err, want)
 	}
@@ -119,7 +157,8 @@ func (c *sigCase) signAndCheck(t *rapid.T, msg []byte, freshRef func(raw, effMsg
 	if err != nil {
 		t.Fatalf("%v\n Sign(%x) failed: %v", c, msg, err)
 	}
-	if err := c.verifier.Verify(bytes.Clone(sig), bytes.Clone(msg)); err != nil {
+	vs, vm := c.views(sig, msg)
+	if err := c.verifier.Verify(vs, vm); err != nil {
 		t.Fatalf("%v\n Verify(Sign(m), m) failed: %v\n sig=%x\n msg=%x", c, err, sig, msg)
 	}
 	if !bytes.HasPrefix(sig, c.prefix) {
@@ -224,6 +263,7 @@ func (c *sigCase) finish(t *rapid.T, msg []byte, fp evid.H) {
 	if c.skipped > 0 {
 		evid.Add("excluded_known", int64(c.skipped))
 	}
+	evid.Add("candidates_in_reused_buffers", int64(c.bufReuse))
 	n := c.accept + c.reject
 	nontrivial := n > 1 || c.variant == tk.Legacy || len(msg) >= 1
 	evid.Case(c.class(), nontrivial, fp.S(c.scheme).S(c.params).S(c.variant).I(int64(c.id)).S(c.route).B(msg).Sum(), func() any {
